@@ -17,7 +17,8 @@
 From Coq Require Import ZArith List Bool.
 From PTK Require Import Lib.Sx Model.C04_KeyProc Model.C04_Filters Model.C04_Registry Model.C04_Run
                         Proofs.C04_KeyProcFacts Proofs.C04_RuleFacts Proofs.C04_FilterFacts
-                        Proofs.C04_RegistryFacts Proofs.C04_ComposeFacts.
+                        Proofs.C04_RegistryFacts Proofs.C04_ComposeFacts
+                        Model.C04_GlobalDyn Proofs.C04_GlobalDynFacts.
 Import ListNotations.
 Open Scope Z_scope.
 
@@ -60,10 +61,12 @@ Print Assumptions C04_send_terminates.
    handlers that feed keys included), the keys pending before plus the keys
    popped from the queue are, in order, exactly the keys delivered to handler
    invocations, dropped, discarded by the reset after an exception, handed back
-   to the input queue (application finished), followed by the keys still pending. *)
+   to the input queue (application finished), followed by the keys still pending.
+   [typed] leaves out cursor position reports: they are answers of the terminal,
+   taken out of the queue but never part of the key stream (C04_cpr_delivery). *)
 Theorem C04_conservation : forall fuel bs s,
   let '(s', evs, pop, stt) := process_keys fuel bs s in
-  buf s ++ items_keys pop = evs_keys evs ++ buf s'.
+  typed (buf s ++ items_keys pop) = typed (evs_keys evs ++ buf s').
 Proof. exact process_keys_conserved. Qed.
 Print Assumptions C04_conservation.
 
@@ -92,38 +95,57 @@ Theorem C04_undelivered_in_order : forall fuel bs, no_feed bs -> forall s,
   let '(s', evs, pop, stt) := process_keys fuel bs s in
   match stt with
   | SRaised => True
-  | _ => buf s ++ items_keys (queue s) = evs_gone evs ++ buf s' ++ items_keys (queue s')
+  | _ => typed (buf s ++ items_keys (queue s)) = typed (evs_gone evs ++ buf s' ++ items_keys (queue s'))
   end.
 Proof. exact process_keys_in_order. Qed.
 Print Assumptions C04_undelivered_in_order.
 
-(* once the application is finished nothing is popped any more *)
-Theorem C04_done_stops : forall fuel bs s, sdone s = true -> process_keys fuel bs s = (s, [], [], SDone).
+(* once the application is finished nothing but cursor position reports is taken from the queue *)
+Theorem C04_done_stops : forall fuel bs s,
+  sdone s = true -> remove_first_cpr (queue s) = None -> process_keys fuel bs s = (s, [], [], SDone).
 Proof. exact process_keys_done. Qed.
 Print Assumptions C04_done_stops.
 
 (* ---- a handler that raises leaves the processor reset (empty key_buffer and
    input_queue: the state of a fresh processor with the same conditions), and
-   the exception is the last thing that happened *)
+   the previous-key bookkeeping cleared), and the exception is the last thing
+   that happened; the handler was called for keys or for a cursor position report *)
 Theorem C04_exception_resets : forall fuel bs s s' evs pop,
   process_keys fuel bs s = (s', evs, pop, SRaised) ->
-  s' = mkst [] [] (cenv s') (sdone s') /\
-  exists evs0 lb lq, evs = evs0 ++ [ERaised lb lq] /\ exists i ks, In (EInvoke i ks) evs0.
+  s' = mkst [] [] (cenv s') (sdone s') None /\
+  exists evs0 lb lq, evs = evs0 ++ [ERaised lb lq] /\ exists i, (exists ks, In (EInvoke i ks) evs0) \/ In (ECpr i) evs0.
 Proof. exact process_keys_raised. Qed.
 Print Assumptions C04_exception_resets.
 
 (* process_keys may legitimately not terminate (a handler can feed its own
-   key); whenever it finishes, the fuel is irrelevant, and without feeding
-   handlers one step per queued item suffices *)
+   key); whenever it finishes, the fuel is irrelevant, and with handlers
+   that only flip conditions or raise one step per queued item suffices *)
 Theorem C04_fuel_irrelevant : forall fuel bs s r fuel',
   process_keys fuel bs s = r -> snd r <> SFuel -> (fuel <= fuel')%nat -> process_keys fuel' bs s = r.
 Proof. exact process_keys_fuel_mono. Qed.
 Print Assumptions C04_fuel_irrelevant.
 
-Theorem C04_fuel_nofeed : forall fuel bs, no_feed bs -> forall s,
-  (length (queue s) <= fuel)%nat -> snd (process_keys fuel bs s) <> SFuel.
-Proof. exact process_keys_fuel_nofeed. Qed.
-Print Assumptions C04_fuel_nofeed.
+Theorem C04_fuel_plain : forall fuel bs, plain bs -> forall s,
+  sdone s = false -> (length (queue s) <= fuel)%nat -> snd (process_keys fuel bs s) <> SFuel.
+Proof. exact process_keys_fuel_plain. Qed.
+Print Assumptions C04_fuel_plain.
+
+(* ---- cursor position reports (_handle_cpr_response).  A report never enters
+   the key buffer.  Delivering it (the handler not raising) leaves key_buffer
+   and the previous-key bookkeeping as they were, consumes no typed key, and
+   changes the input queue only by what the handler itself feeds; the binding
+   that receives it has keys exactly (CPRResponse,) - never a wildcard - is
+   active, and is the last registered such binding. *)
+Theorem C04_cpr_delivery : forall bs s q s1 evs,
+  cpr_step bs s q = (s1, evs, false) ->
+  buf s1 = buf s /\ sprev s1 = sprev s /\ evs_keys evs = [] /\ replays q evs (queue s1).
+Proof. exact cpr_step_frame. Qed.
+Print Assumptions C04_cpr_delivery.
+
+Theorem C04_cpr_binding : forall l e i b,
+  cpr_binding (index_from 0 l) e = Some (i, b) -> Best l e [CPR] cpr_only i b.
+Proof. exact cpr_binding_best. Qed.
+Print Assumptions C04_cpr_binding.
 
 (* ---- filters: the memoised & | ~ (caches, flattening, de-duplication,
    singleton collapse, Always/Never short cuts) return an object whose value is
@@ -242,6 +264,28 @@ Theorem C04_eager_filter_object : forall h f g e,
   feval e (reify h' r) = feval e (FOr (reify h f) (reify h g)) /\ wf h'.
 Proof. exact or_filter_object. Qed.
 Print Assumptions C04_eager_filter_object.
+
+(* ---- is_global as a dynamic filter (Model/C04_GlobalDyn.v): after any history of
+   adds, condition changes and lookups, GlobalOnlyKeyBindings shows the bindings
+   whose is_global was true under the condition values of its last rebuild, and
+   it rebuilds exactly when the KeyBindings' version changed since the last look *)
+Theorem C04_global_only_shows : forall e ops,
+  let s := fold_left gstep ops (gst0 e) in
+  let s' := gstep s GLook in
+  gshown s' = filter (is_glob (grebuilt s')) (gbs s') /\
+  gbs s' = gbs s /\
+  (glast s = Some (gver s) -> grebuilt s' = grebuilt s) /\
+  (glast s <> Some (gver s) -> grebuilt s' = genv s).
+Proof. exact global_only_shows. Qed.
+Print Assumptions C04_global_only_shows.
+
+(* ... so it does not follow is_global's current value: a binding that became
+   global with no add/remove in between stays hidden (finding C04-F1) *)
+Theorem C04_global_only_current_refuted : exists e ops,
+  let s := gstep (fold_left gstep ops (gst0 e)) GLook in
+  gshown s <> filter (is_glob (genv s)) (gbs s).
+Proof. exact global_only_stale. Qed.
+Print Assumptions C04_global_only_current_refuted.
 
 (* observation (DESIGN F12), not demanded by the property: KeyBindings.remove
    deletes from the list it iterates over and so skips the element after each
